@@ -411,6 +411,20 @@ def run(chk, repo):
             chk.ob('C16.i', 'RI: every exon of the transcript is tested for retaining the intron', ri.where, okc,
                    f"{detail}: a transcript whose LAST exon retains the intron is not recognised as retaining (an Insertion is emitted although an annotated isoform has that form)",
                    key=ri.qual + '::retained-cover', fn=ri.qual)
+    # C16.l: every transcript of the gene is classified (spliced / retained): the loop that fills the two lists is never abandoned
+    from rules.shared import loop_own_exits
+    chk.rule('C16.l', 'R-DRAIN: the classification of the gene\'s transcripts (spliced_in_ref / retained_in_ref) visits every transcript', 1)
+    chk.clauses.append('C16.l RI: the loop over the transcripts of the gene that fills spliced_in_ref / retained_in_ref has no break / return of its own: an annotated isoform listed after the first match is still seen')
+    tloops = [l for l in ast.walk(ri.node) if isinstance(l, ast.For) and any(isinstance(c, ast.Call) and call_name(c) == 'append' and unparse(c.func.value) in ('retained_in_ref', 'spliced_in_ref')
+                                                                        for c in ast.walk(l))]
+    tloops = [l for l in tloops if not any(l2 is not l and any(x is l for x in ast.walk(l2)) for l2 in tloops)]       # outermost such loop
+    if len(tloops) != 1:
+        chk.undecided('C16.l', 'RI: transcript classification loop', ri.where, f"{len(tloops)} loops filling spliced_in_ref / retained_in_ref found", key=ri.qual + '::classify-all', fn=ri.qual)
+    else:
+        ex_ = loop_own_exits(tloops[0])
+        chk.ob('C16.l', 'RI: no break / return leaves the loop over the transcripts of the gene', repo.loc(ri, ex_[0]) if ex_ else repo.loc(ri, tloops[0]), not ex_,
+               f"the loop `for {unparse(tloops[0].target)} in {unparse(tloops[0].iter)}` is left at {[repo.loc(ri, x) for x in ex_]}: transcripts after the first match are never classified, "
+               "so a form that an annotated isoform already has is emitted as a variant", key=ri.qual + '::classify-all', fn=ri.qual)
     from rules.shared import kwname
     chk.clauses.append('C16.kw (shared R-THREAD) parameters handed on as keyword arguments keep their name: no `a=b` between two parameters of one function')
     kwname(chk, repo, 'C16.kw', ['parser.RMATSParser', 'cli.parse_rmats'], floor=0)
